@@ -91,7 +91,7 @@ theorem table_ok : TableOk Gen.prog reachInputs reachAt where
     · rw [hcc] at hin hall
       exact ⟨repOf c, hin, fun st => hall st (St.mem_all st)⟩
 
-theorem root_in_reach : (reachAt .stateRoot).contains ([], [], 0, true, [], 0, false) = true := by decide
+theorem root_in_reach : (reachAt .stateRoot).contains ([], [], 0, true, [], 0, false, 1) = true := by decide
 
 /-- **C12 (no crash), every file, every oracle, every fuel**: however a scan of a file from `stateRoot`
     ends, it does not end in a crash of the scanner: no panic site of the model is reached (pop of an
@@ -123,7 +123,35 @@ theorem C12_lexeme_order (env : Env) (fuel : Nat) (s s' : Sc St) (l : Lexeme) (h
   have := next_sound env Gen.prog reachInputs reachAt table_ok fuel s hg
   rw [h] at this
   obtain ⟨hg', hwf, _⟩ := this
-  exact ⟨(hwf l rfl).2.1, (hwf l rfl).2.2, hg'⟩
+  exact ⟨(hwf l rfl).2.1.1, (hwf l rfl).2.1.2, hg'⟩
+
+/-- **C12 (text order, no overlap), every file, every oracle, every fuel**: the lexemes of a scan come in
+    the order of the text and do not overlap — every lexeme begins after the end of every lexeme reported
+    before it (`OrderedFrom (-1)`: the first begins at a position ≥ 0, and for `i < j`, `end_i < begin_j`);
+    in particular lexemes never nest. -/
+theorem C12_lexemes_in_text_order (env : Env) (fuel n : Nat) :
+    OrderedFrom (-1) (scanFrom env Gen.prog fuel n (Sc.init .stateRoot) []).1 :=
+  scanFrom_ordered env Gen.prog reachInputs reachAt table_ok fuel n (-1) (Sc.init .stateRoot) []
+    (good_init env reachAt .stateRoot root_in_reach) trivial rfl
+
+theorem C12_scanFile_lexemes_in_text_order (data : Array UInt8) (lenAt : BodyKind → Nat → LenAnswer) :
+    OrderedFrom (-1) (scanFile data lenAt).1 :=
+  C12_lexemes_in_text_order (mkEnv data lenAt) _ _
+
+/-- what `OrderedFrom` says about any two lexemes of the list -/
+theorem orderedFrom_pairwise (le : Int) (ls : List Lexeme) (h : OrderedFrom le ls) :
+    ls.Pairwise (fun a b => a.e < b.b) ∧ ∀ l ∈ ls, le < l.b := by
+  induction ls generalizing le with
+  | nil => exact ⟨List.Pairwise.nil, fun l hl => by cases hl⟩
+  | cons x rest ih =>
+    obtain ⟨hp, hall⟩ := ih (max le x.e) h.2
+    refine ⟨List.Pairwise.cons (fun b hb => ?_) hp, fun l hl => ?_⟩
+    · have := hall b hb
+      omega
+    · rcases List.mem_cons.mp hl with rfl | hl
+      · exact h.1
+      · have := hall l hl
+        omega
 
 /-- **C12 (stack discipline), every file, every oracle, every fuel**: in particular the scanner's two
     stacks are used in a balanced way — begin and end events always pair up to well-nested lexemes. -/
